@@ -16,7 +16,11 @@ for sid in ids:
     tests = re.search(r"(\d+) passed", out)
     failed = re.search(r"(\d+) failed", out)
     chk = re.search(r"check (\w+) rc=(\d+) :: (.*)", out)
-    viol = re.search(r"\[C\d+\] ([a-z-]+): (.*)", chk.group(3)) if chk else None
+    viol = None
+    for m_ in re.finditer(r"\[C\d+\] ([a-z-]+): ((?:(?!\[C\d+\] ).)*)", chk.group(3) if chk else ""):
+        if m_.group(1) != "labels":
+            viol = m_
+            break
     notes = open(f"{d}/NOTES.md").read() if os.path.exists(f"{d}/NOTES.md") else ""
     meta.update({
         "id": sid, "breaks_property": prop,
